@@ -91,3 +91,28 @@ Definition vsum (n : nat) (vs : list vec) : vec :=
   map (fun i => qsum (map (fun v => nthq v i) vs)) (seq 0 n).
 Definition check_obs_total (m : pomdp) (b : vec) (a : nat) (outs : list vec) : bool :=
   veqb (vsum (nS (pm m)) outs) (predict_r m b a).
+
+(* ------------------------------------------------------------------ operation histories *)
+(* a table of exact distributions with the model's dimensions *)
+Definition exact_tableb (A S K : nat) (t : list mat) : bool := (length t =? A)%nat && rows_distb S K t.
+(* what a history may offer to the setters: a table that the library's (tolerant) validator accepts is an
+   exact set of distributions of the right shape — i.e. every table is either exactly valid or rejected —
+   and directly stored reward matrices have the model's shape *)
+Definition op_ok (S A O : nat) (o : op) : Prop :=
+  match o with
+  | OpSetObs t => prob_tableb t = true -> exact_tableb A S O t = true
+  | OpSetT t => prob_tableb t = true -> exact_tableb A S S t = true
+  | OpSetR3 _ => True
+  | OpSetR2 r => length r = S /\ Forall (fun row => length row = A) r
+  end.
+
+(* ------------------------------------------------------------------ filtering along a history *)
+(* unnormalised filter composed along a history; its sum is the probability of the observation sequence *)
+Fixpoint tau_hist (m : pomdp) (tau : vec) (h : list (nat * nat)) : vec :=
+  match h with [] => tau | (a, o) :: t => tau_hist m (tau_step m tau a o) t end.
+Definition hist_prob (m : pomdp) (b : vec) (h : list (nat * nat)) : Q := qsum (tau_hist m b h).
+Definition hist_ok (m : pomdp) (h : list (nat * nat)) : Prop :=
+  Forall (fun ao => (fst ao < nA (pm m))%nat /\ (snd ao < nO m)%nat) h.
+(* reduced-fraction twin for the driver *)
+Fixpoint tau_hist_r (m : pomdp) (tau : vec) (h : list (nat * nat)) : vec :=
+  match h with [] => tau | (a, o) :: t => tau_hist_r m (tau_step_r m tau a o) t end.
